@@ -24,7 +24,9 @@ PROPS = {
                       "SetResult calls parked between the winning Swap and the field writes, the three Await variants on promises and on the "
                       "container incl. pre-cancelled contexts and pre-fired channels, context cancellations, error/cancel channel sends and closes, "
                       "container SetPromise incl. nil and the same promise, container SetResult, GetPromise; one HoldLock section at a time; in a "
-                      "third of the histories container awaiters also park at the exit gate so that several select cases are ready) + corpus; "
+                      "third of the histories container awaiters also park at the exit gate so that several select cases are ready) + every tenth history a "
+                      "free-running stress history (100 rounds of 2-5 SetResult calls racing with 1-5 awaiters on a fresh promise, real parallelism, no gates: "
+                      "exactly one true, every awaiter got that call's result, no panic) + corpus (D11, D20); "
                       "distinct = distinct event sequence; non-trivial = >= 8 events, an actor observed blocked and an await observed returned"),
         ],
         trusted=SCHED_TRUSTED + [
@@ -38,6 +40,12 @@ PROPS = {
             "enforced on the implementation by the harness's gate-pass budget and watchdog; CPU time itself is not modelled",
             "'returns the result of the promise that is current' is read at the awaiter's last HoldLock section",
             "one PromiseContainer per history holding plain Promises (a container nested in a container is not modelled)",
+            "interleavings of the memory accesses INSIDE one segment (Swap vs. Load+Store, fields written after close(done)) cannot be forced by the "
+            "controller; they are covered by the model theorems and searched for by the free-running stress histories (chance-dependent)",
+            "Go's select choice is not seeded: a replayed history may take the other ready case; hints are recomputed on replay",
+            "the unbounded model_satisfies_monitors is not proved; c11_monitors_accept_model_bounded checks it by kernel computation for every accepted "
+            "sequence of <= 5 events of a fixed alphabet (and <= 4 events after three fixed prefixes); beyond that the tie is empirical: on every run the "
+            "model reproduces the implementation's observations and the monitors are evaluated on those",
         ],
         meta=dict(
             text="Coq theorems over ALL event lists of an interleaving model of promise.Promise at memory-access granularity (Swap | gate | field writes + close) and of "
